@@ -331,6 +331,7 @@ M_PRELUDE = [
     "def ser_float(v) -> float:\n    return 0.5",
     "def ser_date(v) -> datetime.date:\n    return datetime.date.min",
     "def ser_any(v):\n    return v",
+    "def ser_lstr(v) -> List[str]:\n    return []",
     "class StratS(SerializationStrategy):\n    def serialize(self, v) -> str:\n        return str(v)\n    def deserialize(self, v):\n        return v",
     "class ME1(enum.Enum):\n    A = 'a'\n    B = 2",
     "class ME0(enum.Enum):\n    pass",
@@ -612,14 +613,16 @@ def m_family(r):
             # field-level override: at most one of "serialize" / "serialization_strategy"; its replacement type carries no overridden key
             f_ser = f_strat = None
             if r.random() < 0.18 and not (cyclic and j == 0 and i == n - 1):
-                cands = [o for o in OV_RET if o[2] not in over]
+                # (field-override-once fix) a field-level option replaces the field's type once: the replacement may be a container,
+                # and an unannotated strategy yields Any
+                cands = [o for o in OV_RET + [("ser_lstr", "ORet (Some (TList TStr))", "list")] if o[2] not in over]
                 if r.random() < 0.5:
                     f_ser = r.choice([("pass_through", "OPass"), ("str", "OBasic TStr"), ("bool", "OBasic TBool"), ("ser_any", "ORet None")]
                                      + [(fn, coq) for fn, coq, _ in cands])
                     if f_ser[0] in ("str",) and "str" in over:
                         f_ser = ("pass_through", "OPass")
                 else:
-                    f_strat = r.choice([("pass_through", "OPass"), ('{"deserialize": ser_any}', "ODeser")]
+                    f_strat = r.choice([("pass_through", "OPass"), ('{"deserialize": ser_any}', "ODeser"), ('{"serialize": ser_any}', "ORet None")]
                                        + [('{"serialize": %s}' % fn, coq) for fn, coq, _ in cands])
             passes = (f_ser or f_strat or ("", ""))[1] in ("OPass", "ODeser")
             if 'TOpaque "Pt"' in t.coq and (f_ser or f_strat) and passes and (f_ser or f_strat)[1] == "OPass":
